@@ -26,12 +26,13 @@ CONSTANTS FragSet,      \* name of the fragment set to use
           Emit1         \* BOOLEAN: print REPLAY lines
 
 VARIABLES T,      \* the text chosen so far: [cs, cc]
+          fends,  \* end positions of the fragments chosen so far
           nfr,    \* number of fragments chosen
           eof,    \* the input is closed
           S,      \* the lexer state (SasLexer!InitState ...)
           phase   \* "lex", "fin", "done"
 
-vars == <<T, nfr, eof, S, phase>>
+vars == <<T, fends, nfr, eof, S, phase>>
 
 \* ---- fragment sets: <<text, class>>; class # 0 makes every character of the fragment a
 \* non-ASCII character of that class (the driver substitutes a real character)
@@ -65,7 +66,7 @@ FragChars(f) == Split(f[1])
 FragClasses(f) == [i \in 1..Len(f[1]) |-> f[2]]
 
 \* ---- the pending step and whether its result is final
-Margin == 4
+Margin == 2
 Pending(st, txt, closed) ==
   IF ~Eof(txt, st.pos) THEN Step(st, txt)
   ELSE IF ~closed THEN [st EXCEPT !.la = TLen(txt) + 1]           \* nothing to look at: need more
@@ -74,16 +75,17 @@ StepFinal(st, st1, txt, closed) ==
   closed \/ Max2(Max2(st1.la, st1.pos + Margin), st.pos + Margin) <= TLen(txt)
 
 Init ==
-  /\ T = [cs |-> <<>>, cc |-> <<>>] /\ nfr = 0 /\ eof = FALSE
+  /\ T = [cs |-> <<>>, cc |-> <<>>] /\ fends = <<>> /\ nfr = 0 /\ eof = FALSE
   /\ S = InitState(0) /\ phase = "lex"
 
 Extend ==
   /\ ~eof /\ phase = "lex"
   /\ ~StepFinal(S, Pending(S, T, FALSE), T, FALSE)
   /\ \/ /\ nfr < MaxFrags
-        /\ \E f \in Frags : T' = [cs |-> T.cs \o FragChars(f), cc |-> T.cc \o FragClasses(f)]
+        /\ \E f \in Frags : /\ T' = [cs |-> T.cs \o FragChars(f), cc |-> T.cc \o FragClasses(f)]
+                              /\ fends' = Append(fends, TLen(T) + Len(f[1]))
         /\ nfr' = nfr + 1 /\ eof' = FALSE
-     \/ /\ eof' = TRUE /\ UNCHANGED <<T, nfr>>
+     \/ /\ eof' = TRUE /\ UNCHANGED <<T, fends, nfr>>
   /\ UNCHANGED <<S, phase>>
 
 LexStep ==
@@ -91,38 +93,56 @@ LexStep ==
   /\ LET S1 == Pending(S, T, eof) IN
        /\ StepFinal(S, S1, T, eof)
        /\ S' = [S1 EXCEPT !.la = 0]
-  /\ UNCHANGED <<T, nfr, eof, phase>>
+  /\ UNCHANGED <<T, fends, nfr, eof, phase>>
 
 StartFinalize ==
   /\ phase = "lex" /\ eof /\ Eof(T, S.pos)
-  /\ phase' = "fin" /\ UNCHANGED <<T, nfr, eof, S>>
+  /\ phase' = "fin" /\ UNCHANGED <<T, fends, nfr, eof, S>>
 
 FinStep ==
   /\ phase = "fin"
   /\ IF S.modes # <<>> THEN S' = FinalizeStep(S, T) /\ phase' = "fin"
      ELSE S' = EofStep(S) /\ phase' = "done"
-  /\ UNCHANGED <<T, nfr, eof>>
+  /\ UNCHANGED <<T, fends, nfr, eof>>
 
 Next == Extend \/ LexStep \/ StartFinalize \/ FinStep
 Spec == Init /\ [][Next]_vars
 
 \* ---- view (R2): configuration, unread window, look-behind
 Base == IF S.ck.set /\ S.ck.pos < S.pos THEN S.ck.pos ELSE S.pos
-DefTypes(toks, n) ==   \* types of the last n default-channel tokens
+\* The look-behind the code consults, reduced to the classes it distinguishes (DESIGN.md 8, C15):
+\* the type of the last token, of the last and of the second-to-last default-channel token.
+LastTokClass(ty) ==
+  CASE ty \in {"StringExprStart", "SEMI", "PredictedCommentStat", "KwmUntil", "KwmWhile", "None"} -> ty
+    [] ty \in KwmStatTypes -> "stat"
+    [] ty \in {"MacroVarTerm", "MacroIdentifier", "MacroString", "RPAREN"} -> "namepart"
+    [] OTHER -> "other"
+LastDefClass(ty) ==
+  CASE ty \in {"None", "SEMI", "MacroLabel", "KwmThen", "KwmElse", "KwmDo", "MacroIdentifier"} -> ty
+    [] IsLogicalOp(ty) -> "logical"
+    [] ty \in EvalStartTypes -> "evalstart"
+    [] OTHER -> "other"
+PrevDefClass(ty) == IF ty \in {"None", "SEMI", "MacroLabel", "KwmThen", "KwmElse"} THEN ty ELSE "other"
+DefTypes(toks) ==   \* types of the last two default-channel tokens
   LET i1 == LastDefIdx(toks, Len(toks))
       i2 == IF i1 > 0 THEN LastDefIdx(toks, i1 - 1) ELSE 0
   IN <<IF i1 > 0 THEN toks[i1].ty ELSE "None", IF i2 > 0 THEN toks[i2].ty ELSE "None">>
-LookBehind(toks) == <<IF toks = <<>> THEN "None" ELSE toks[Len(toks)].ty, DefTypes(toks, 2)>>
+LookBehind(toks) ==
+  LET d == DefTypes(toks) IN
+  <<LastTokClass(IF toks = <<>> THEN "None" ELSE toks[Len(toks)].ty), LastDefClass(d[1]), PrevDefClass(d[2])>>
+\* fragment boundaries inside the unread window, relative to its start
+WinFrags == [i \in 1..Cardinality({j \in 1..Len(fends) : fends[j] > Base}) |->
+               fends[Len(fends) - Cardinality({j \in 1..Len(fends) : fends[j] > Base}) + i] - Base]
 View ==
   <<S.modes, S.pend, S.nest, S.fault, phase, eof,
     S.ck.set, IF S.ck.set THEN <<S.pos - S.ck.pos, S.ck.ml, Len(S.toks) - S.ck.nt,
                                  LookBehind(SubSeq(S.toks, 1, S.ck.nt))>> ELSE <<>>,
     LookBehind(S.toks),
-    SubSeq(T.cs, Base + 1, TLen(T)), SubSeq(T.cc, Base + 1, TLen(T))>>
+    SubSeq(T.cs, Base + 1, TLen(T)), SubSeq(T.cc, Base + 1, TLen(T)), WinFrags>>
 
 Bounds ==
   /\ Len(S.modes) <= MaxStack
-  /\ TLen(T) - Base <= MaxWindow
+  /\ Len(WinFrags) <= MaxWindow          \* fragments in the unread window
   /\ (S.ck.set => (S.pos - S.ck.pos <= MaxSpec /\ Len(S.toks) - S.ck.nt <= MaxToksSinceCk))
   /\ S.nest <= 2 /\ Len(S.pend) <= 3
   /\ \A i \in 1..Len(S.modes) : S.modes[i].p <= 2
@@ -135,7 +155,7 @@ CkptDiscipline ==                                \* a live checkpoint belongs to
     \/ \E i \in 1..Len(S.modes) : S.modes[i].k \in {"MaybeMacroCallArgsOrLabel", "MaybeMacroCallArgAssign"}
     \/ Top(S).k = "MacroCallArgOrValue"
     \/ phase # "lex"
-CkptBelowStack == S.ck.set => S.ck.ml <= Len(S.modes) + 1
+CkptBelowStack == (phase = "lex" /\ S.ck.set) => S.ck.ml <= Len(S.modes) + 1
 TokensOrdered ==                                 \* C02: starts never decrease, nothing lies beyond the cursor
   /\ \A i \in 2..Len(S.toks) : S.toks[i].c >= S.toks[i-1].c
   /\ (S.toks # <<>> => S.toks[Len(S.toks)].c <= S.pos)
